@@ -12,6 +12,7 @@ import (
 	"hash/fnv"
 	"os"
 	"path/filepath"
+	"runtime"
 	"runtime/debug"
 	"sort"
 	"strconv"
@@ -380,9 +381,39 @@ func Guard(f func() error) (err error) {
 	defer func() {
 		if r := recover(); r != nil {
 			err = fmt.Errorf("panic: %v\n%s", r, trimStack(debug.Stack()))
+			if strings.Contains(fmt.Sprint(r), "blocked goroutines remain") {
+				// the panic does not say which goroutines: list those that are parked inside the bubble
+				buf := make([]byte, 4<<20)
+				buf = buf[:runtime.Stack(buf, true)]
+				var keep []string
+				for _, g := range strings.Split(string(buf), "\n\n") {
+					if strings.Contains(g, "synctest") && !strings.Contains(g, "[running]") {
+						// function names only, innermost frames of the library dropped
+						var fr []string
+						for _, l := range strings.Split(g, "\n") {
+							if !strings.HasPrefix(l, "\t") && !strings.Contains(l, "go-msgpack") {
+								if i := strings.LastIndex(l, "("); i > 0 && !strings.HasPrefix(l, "goroutine") && !strings.HasPrefix(l, "created by") {
+									l = l[:i]
+								}
+								fr = append(fr, l)
+							}
+						}
+						keep = append(keep, trimStackN(strings.Join(fr, "\n"), 40))
+					}
+				}
+				err = fmt.Errorf("%v\nBLOCKED IN THE BUBBLE (%d):\n%s", err, len(keep), strings.Join(keep, "\n\n"))
+			}
 		}
 	}()
 	return f()
+}
+
+func trimStackN(g string, n int) string {
+	lines := strings.Split(g, "\n")
+	if len(lines) > n {
+		lines = lines[:n]
+	}
+	return strings.Join(lines, "\n")
 }
 
 func trimStack(b []byte) string {
